@@ -72,13 +72,14 @@ ENTRIES = {
         "text": "Theorems for every request list and every schedule (any interleaving of issuing on any eligible pooled or new "
                 "connection, server reads, handler completions in any order on HTTP/2, client reads, cancellations): in the "
                 "message-level model of client + pool + server whatever a caller receives is the handler's answer to that caller's own "
-                "request, and every request the server handles is one that was sent, as sent (invariant proved by induction over the "
-                "schedule); with a pool that hands out a busy HTTP/1 connection the model does cross-talk (witness). The real "
+                "request, every request the server handles is one that was sent, as sent, and no issued request is ever lost: it is "
+                "answered, cancelled by its caller, or still in flight on an open connection, so at rest every uncancelled request has "
+                "its own response (invariants proved by induction over the schedule); with a pool that hands out a busy HTTP/1 connection the model does cross-talk (witness). The real "
                 "Client/Server pair is run on generated concurrent scenarios with ids, digests and origin echoes checked at both ends "
                 "and compared with the model's outcome.",
         "note": "Trusted: Lean kernel; hyper's framing is an assumption of the connection rules; the tie to the code is "
-                "differential (concurrent scenarios, virtual time), partial for liveness: completion is checked on the runs, the "
-                "theorem side covers matching and integrity at message level.",
+                "differential (concurrent scenarios, virtual time); message level: bytes are C08/C18, rewriting C13; completion is proved "
+                "as no-loss + delivery at quiescence (fair scheduling itself is the runtime's), and checked on the runs.",
         "design_ref": "DESIGN.md §5 C01",
     },
     "C12": {
